@@ -121,6 +121,8 @@ pub struct Shared {
     pub main_task_raw: u64,
     /// (normalised task, remaining acquisitions) of a task that is being held back
     pub slow_task: Option<(usize, u32)>,
+    /// the main loop is held back when this counter reaches 1 (0 = inactive)
+    pub main_countdown: u32,
     armed: Option<Armed>,
 }
 
@@ -129,6 +131,7 @@ struct Armed {
     hold: u32,
     fired: bool,
     waker: Option<std::task::Waker>,
+    main_stall_at: u32,
 }
 
 /// Resolves when the armed trigger of the current run has fired.
@@ -237,6 +240,7 @@ impl Shared {
             capture_backtraces: false,
             main_task_raw: 0,
             slow_task: None,
+            main_countdown: 0,
             armed: None,
         }
     }
@@ -280,7 +284,15 @@ impl Shared {
     /// lock-trace event, the waiting client is woken at once and the task is held back at its
     /// next `hold` acquisitions.
     pub fn arm(&mut self, what: usize, hold: u32) {
-        self.armed = Some(Armed { what: what % TRIGGERS.len(), hold, fired: false, waker: None });
+        self.arm_with(what, hold, 0);
+    }
+
+    /// `main_stall_at`: once the event has happened, the server's main loop is held back at its
+    /// n-th acquisition of `analysis.write` from then on (0 = not at all): the main loop
+    /// descheduled in the middle of a handler, between what it decided under an earlier lock and
+    /// the write that acts on it.
+    pub fn arm_with(&mut self, what: usize, hold: u32, main_stall_at: u32) {
+        self.armed = Some(Armed { what: what % TRIGGERS.len(), hold, fired: false, waker: None, main_stall_at });
     }
 
     pub fn disarm(&mut self) {
@@ -316,6 +328,9 @@ impl Shared {
         let hold = a.hold;
         if hold > 0 {
             self.slow_task = Some((e.task, hold));
+        }
+        if a.main_stall_at > 0 {
+            self.main_countdown = a.main_stall_at;
         }
         let a = self.armed.as_mut()?;
         a.fired = true;
@@ -523,13 +538,22 @@ impl Controller for SimController {
         let maxy = s.spec.max_yields.max(1);
         let (spm, slen) = (s.spec.stall_permille, s.spec.stall_len.max(2));
         let this = s.task(task_raw);
-        let held_back = match s.slow_task {
+        let mut held_back = match s.slow_task {
             Some((t, n)) if t == this && n > 0 => {
                 s.slow_task = if n > 1 { Some((t, n - 1)) } else { None };
                 true
             }
             _ => false,
         };
+        // counts the main loop's *write* acquisitions of the analysis lock: the points where a
+        // text-document handler acts on what it decided under an earlier (read) lock
+        if is_main && s.main_countdown > 0 && matches!(_kind, AcqKind::RwWrite) && ty.contains("EmmyLuaAnalysis") {
+            s.main_countdown -= 1;
+            if s.main_countdown == 0 {
+                held_back = true;
+                s.probes.entry("main_loop_held_back_after_trigger").and_modify(|c| *c += 1).or_insert(1);
+            }
+        }
         let d = s.decide(
             |s| {
                 if held_back {
@@ -608,6 +632,9 @@ impl Controller for SimController {
         if s.events.len() < 200_000 {
             let under_reload = s.held.iter().any(|(t, l, m)| *t == task && *m == Mode::M && s.lock_names[*l] == "()");
             let e = LockEv { op: ev.op, mode, lock, task, under_reload };
+            if trace_enabled() {
+                eprintln!("    lock t{task}{} {:?} {:?} {}{}", if Some(task) == s.main_task() { "(main)" } else { "" }, ev.op as u8, mode, s.lock_names[lock], if under_reload { " [reload]" } else { "" });
+            }
             let waker = s.check_trigger(&e);
             s.events.push(e);
             if let Some(w) = waker {
@@ -620,6 +647,11 @@ impl Controller for SimController {
     fn rng_seed(&mut self) -> Option<u64> {
         Some(self.0.borrow().rt_seed)
     }
+}
+
+fn trace_enabled() -> bool {
+    static ON: std::sync::OnceLock<bool> = std::sync::OnceLock::new();
+    *ON.get_or_init(|| std::env::var("VERIF_LS_TRACE").is_ok())
 }
 
 static BT_CACHE: std::sync::Mutex<BTreeMap<String, String>> = std::sync::Mutex::new(BTreeMap::new());
